@@ -95,7 +95,11 @@ class MappingServiceGraph(Graph):
         reference = self.converter.parse_uri(uri_in, return_none=True)
         if reference is None:
             return []
-        uris = self.converter.expand_pair_all(reference.prefix, reference.identifier, strict=True)
+        # standardize the identifier like expanding the compressed URI would (a subclass might override it)
+        identifier = self.converter.standardize_identifier(reference.prefix, reference.identifier)
+        if identifier is None:
+            return []
+        uris = self.converter.expand_pair_all(reference.prefix, identifier, strict=True)
         # do _is_valid_uri check because some configurations e.g. from Bioregistry might
         # produce invalid URIs e.g., containing spaces
         return [URIRef(uri) for uri in uris if _is_valid_uri(uri)]
